@@ -60,7 +60,7 @@ PROPS = {
                       {"name": "stale-status", "test": "TestC15Stale", "quick_checks": 500, "thorough_checks": 40000, "thorough_shards": 16}]},
     "C16": engine_prop("TestC16", quick=500, thorough=30000),
     "C18": engine_prop("TestC18", quick=1200, thorough=80000),
-    "C19": {"level": "exploration", "assumptions": ["inputs come from mutation grammars around valid packages / images / schemas / status shapes, not arbitrary byte strings for every entry point; panics inside goroutines the target starts itself would abort the process and are reported as inconclusive (exit 2), none observed"],
+    "C19": {"level": "exploration", "death_is_violation": True, "assumptions": ["inputs come from mutation grammars around valid packages / images / schemas / status shapes, not arbitrary byte strings for every entry point; a worker that dies of a Go stack overflow (unbounded recursion cannot be recovered) is reported as a violation whose replay is the case recorded right before it ran; any other worker death is inconclusive (exit 2)"],
             "parts": [
                 {"name": "pipeline", "test": "TestC19Pipeline", "quick_checks": 3000, "thorough_checks": 400000, "thorough_shards": 16},
                 {"name": "oci", "test": "TestC19OCI", "quick_checks": 3000, "thorough_checks": 300000, "thorough_shards": 16},
